@@ -340,6 +340,12 @@ def run(ctx):
     if not ctx.quick:
         ctx.exhaustive = True
         ctx.extra["exhaustive_bound"] = "full product schemes x servers x Host x roots x paths x queries"
+    # ---- a process that has seen many different origins: the early ones again
+    origins = [("http", ("srv%d.internal" % i, 8000 + i)) for i in range(120)] + [("https", ("10.1.%d.%d" % (i // 200, i % 200), 443 if i % 7 == 0 else 9000 + i)) for i in range(120)]
+    for rnd in range(2):
+        for scheme, server in origins[:60] if rnd else origins:
+            check_request_url(ctx, scheme, server, None, "", "/p", "")
+            ctx.mon("many-origins")
     for i in range(ctx.scale(1500, 60_000)):
         case = check_derived(ctx, rng)
         ctx.case(repr(case))
